@@ -102,7 +102,19 @@ func presentInBubble(h service.StreamHandler, rec *kit.RecTCPConn, c C06Case, wi
 	if c.CancelAtMs > 0 {
 		var cancel context.CancelFunc
 		ctx, cancel = context.WithCancel(ctx)
-		go func() { time.Sleep(time.Duration(c.CancelAtMs) * time.Millisecond); cancel() }()
+		stopCancel := make(chan struct{})
+		cancelled := make(chan struct{})
+		go func() { // ends with the presentation (no goroutine may outlive the bubble's main goroutine)
+			defer close(cancelled)
+			tm := time.NewTimer(time.Duration(c.CancelAtMs) * time.Millisecond)
+			defer tm.Stop()
+			select {
+			case <-tm.C:
+			case <-stopCancel:
+			}
+			cancel()
+		}()
+		defer func() { close(stopCancel); <-cancelled }()
 	}
 	go func() {
 		h.Handle(ctx, srv, rec)
